@@ -170,3 +170,7 @@ mod tests {
         }
     }
 }
+
+#[cfg(all(aws_s2n_quic_verif, test))]
+#[path = "/verif/harness/core/token.rs"]
+mod verif;
